@@ -307,11 +307,21 @@ func stringLength1(context Context, args ...Result) (Result, error) {
 }
 
 func normalizeSpace0(context Context, args ...Result) (Result, error) {
-	return String(strings.TrimSpace(context.Result().String())), nil
+	return String(normalizeSpace(context.Result().String())), nil
 }
 
 func normalizeSpace1(context Context, args ...Result) (Result, error) {
-	return String(strings.TrimSpace(args[0].String())), nil
+	return String(normalizeSpace(args[0].String())), nil
+}
+
+// normalizeSpace strips leading and trailing XML whitespace (space, tab,
+// carriage return, line feed) and replaces inner runs of it by one space.
+func normalizeSpace(str string) string {
+	isXmlSpace := func(r rune) bool {
+		return r == ' ' || r == '\t' || r == '\r' || r == '\n'
+	}
+
+	return strings.Join(strings.FieldsFunc(str, isXmlSpace), " ")
 }
 
 func translate(context Context, args ...Result) (Result, error) {
